@@ -372,6 +372,12 @@ func stampOf(sr *aSentRec) string { return fmt.Sprintf("c%d.n%d#", sr.client, sr
 // eventStamp extracts the record stamp from a delivered event
 func eventStamp(e *forwardprotocol.EventEntry) string {
 	log, _ := e.Record["log"].(string)
+	if strings.HasPrefix(log, "[") {
+		// a bracketed label the extractHead step did not cut (only happens to unfinished lines)
+		if j := strings.Index(log, "] - "); j >= 0 {
+			log = log[j+4:]
+		}
+	}
 	if i := strings.IndexAny(log, " \n"); i >= 0 {
 		log = log[:i]
 	}
